@@ -7,6 +7,7 @@ import (
 // GenParams tunes the file program generator.
 type GenParams struct {
 	MaxItems   int
+	MinItems   int
 	MaxOps     int
 	Bounded    int // 0 = either, 1 = bounded only, 2 = unbounded only
 	MaxPages   uint
@@ -19,6 +20,7 @@ type GenParams struct {
 	SmallPages bool // only 1024 byte pages
 	NoFill     bool
 	AbortHeavy bool // more rollbacks / closes
+	Shapes     bool // bulk shapes: fragmented free lists, many overwrites, big regions
 }
 
 var pageSizes = []uint32{1024, 2048, 4096}
@@ -89,6 +91,18 @@ func genOpKind(t *rapid.T, ws []opWeight) string {
 // GenOp draws a transaction op.
 func GenOp(t *rapid.T, p GenParams) Op {
 	ws := defaultOpWeights
+	if p.Shapes {
+		switch rapid.IntRange(0, 11).Draw(t, "shape") {
+		case 0: // fragment the free space: free every second page of many
+			return Op{K: OpFreeMany, A: rapid.IntRange(0, 63).Draw(t, "pick"), B: rapid.IntRange(100, 300).Draw(t, "count"), C: 2}
+		case 1: // big contiguous free region
+			return Op{K: OpFreeMany, A: rapid.IntRange(0, 63).Draw(t, "pick"), B: rapid.SampledFrom([]int{254, 255, 256, 300}).Draw(t, "count"), C: 1}
+		case 2: // many overwrites
+			return Op{K: OpWriteMany, A: rapid.IntRange(0, 63).Draw(t, "pick"), B: rapid.IntRange(60, 200).Draw(t, "count"), C: rapid.IntRange(1, 1<<20).Draw(t, "seed")}
+		case 3, 4: // bulk allocation
+			return Op{K: OpAlloc, A: rapid.IntRange(100, 400).Draw(t, "n")}
+		}
+	}
 	k := genOpKind(t, ws)
 	if k == OpFill && p.NoFill {
 		k = OpAlloc
@@ -170,6 +184,10 @@ func GenProgram(t *rapid.T, p GenParams) *Program {
 	if maxItems == 0 {
 		maxItems = 12
 	}
-	prog.Items = rapid.SliceOfN(rapid.Custom(func(t *rapid.T) Item { return GenItem(t, p) }), 1, maxItems).Draw(t, "items")
+	minItems := p.MinItems
+	if minItems < 1 {
+		minItems = 1
+	}
+	prog.Items = rapid.SliceOfN(rapid.Custom(func(t *rapid.T) Item { return GenItem(t, p) }), minItems, maxItems).Draw(t, "items")
 	return prog
 }
